@@ -1,6 +1,244 @@
 import OnetVerif.Model.C07
-/-! Property C07 — property theorems, negation witnesses, `_partial` variants and non-vacuity
-examples only (helper lemmas that need Mathlib go to OnetVerif/Proofs/). -/
+/-! Property C07 — no peer input can crash, wedge or silence a server. -/
 namespace C07
+
+theorem deliver_not_panic (s : Srv) (to : Tok) (frm : Frm) : (deliver s to frm).1 ≠ .panic := by
+  unfold deliver
+  cases to <;> cases frm <;> simp <;> split <;> simp
+
+theorem sendTree_not_panic (s : Srv) (tm : Option TM) (ro : Option Ro) : (sendTree s tm ro).1 ≠ .panic := by
+  unfold sendTree
+  cases tm with
+  | none => simp
+  | some tm =>
+    simp only
+    split
+    · simp
+    · cases ro with
+      | none => simp
+      | some ro =>
+        simp only
+        split
+        · simp
+        · split <;> simp
+
+/-- **no panic**: in every server state, no envelope — whatever its type and field values —
+makes the overlay panic. -/
+theorem c07_no_panic (s : Srv) (e : Env) : (process s e).1 ≠ .panic := by
+  cases e with
+  | proto to frm b =>
+    simp only [process]
+    split
+    · simp
+    · split
+      · simp
+      · split
+        · exact deliver_not_panic _ _ _
+        · split <;> simp
+  | reqTree t v => simp only [process]; split <;> simp
+  | respTree tm ro => exact sendTree_not_panic s tm ro
+  | treeMarshal tm =>
+    simp only [process]
+    split
+    · simp
+    · split
+      · simp
+      · split
+        · exact sendTree_not_panic _ _ _
+        · simp
+  | reqRoster r => simp [process]
+  | sendRoster ro => simp only [process]; split <;> simp
+  | config w => simp [process]
+
+theorem deliver_lock (s : Srv) (to : Tok) (frm : Frm) : (deliver s to frm).2.treeLock = s.treeLock := by
+  unfold deliver
+  cases to <;> cases frm <;> simp <;> split <;> simp
+
+theorem storeAndFlush_lock (s : Srv) (t : TRef) : (storeAndFlush s t).treeLock = s.treeLock := rfl
+
+theorem sendTree_lock (s : Srv) (tm : Option TM) (ro : Option Ro) :
+    (sendTree s tm ro).2.treeLock = s.treeLock := by
+  unfold sendTree
+  cases tm with
+  | none => simp
+  | some tm =>
+    simp only
+    split
+    · simp
+    · cases ro with
+      | none => simp
+      | some ro =>
+        simp only
+        split
+        · simp
+        · split <;> simp [storeAndFlush_lock]
+
+/-- **no lock left held**: after every envelope the pending-tree lock is free again. -/
+theorem c07_locks_released (s : Srv) (e : Env) (h : s.treeLock = 0) : (process s e).2.treeLock = 0 := by
+  cases e with
+  | proto to frm b =>
+    simp only [process]
+    split
+    · exact h
+    · split
+      · exact h
+      · split
+        · rw [deliver_lock]; exact h
+        · split <;> simpa using h
+  | reqTree t v => simp only [process]; split <;> simpa using h
+  | respTree tm ro => simp only [process]; rw [sendTree_lock]; exact h
+  | treeMarshal tm =>
+    simp only [process]
+    split
+    · exact h
+    · split
+      · exact h
+      · split
+        · rw [sendTree_lock]; exact h
+        · simpa using h
+  | reqRoster r => simpa [process] using h
+  | sendRoster ro => simp only [process]; split <;> simp [h]
+  | config w => simpa [process] using h
+
+theorem c07_locks_released_run (es : List Env) (s : Srv) (h : s.treeLock = 0) :
+    (runEnvs s es).treeLock = 0 := by
+  induction es generalizing s with
+  | nil => exact h
+  | cons e es ih => exact ih _ (c07_locks_released s e h)
+
+/-! a tree that is present is never removed or replaced by an envelope -/
+theorem upd_present {f : TRef → Slot} {t x : TRef} {v : Slot} (h : f x = .present)
+    (hv : v = .present ∨ t ≠ x) : upd f t v x = .present := by
+  unfold upd
+  by_cases e : x = t
+  · rcases hv with hv | hv
+    · simp [e, hv]
+    · exact absurd e.symm hv
+  · simp [e, h]
+
+theorem deliver_slot (s : Srv) (to : Tok) (frm : Frm) : (deliver s to frm).2.slot = s.slot := by
+  unfold deliver
+  cases to <;> cases frm <;> simp <;> split <;> simp
+
+theorem storeAndFlush_keeps (s : Srv) (t x : TRef) (h : s.slot x = .present) :
+    (storeAndFlush s t).slot x = .present := by
+  simp only [storeAndFlush]
+  exact upd_present h (.inl rfl)
+
+theorem sendTree_keeps (s : Srv) (tm : Option TM) (ro : Option Ro) (x : TRef) (h : s.slot x = .present) :
+    (sendTree s tm ro).2.slot x = .present := by
+  unfold sendTree
+  cases tm with
+  | none => simpa
+  | some tm =>
+    simp only
+    split
+    · simpa
+    · cases ro with
+      | none => simpa
+      | some ro =>
+        simp only
+        split
+        · simpa
+        · split
+          · exact storeAndFlush_keeps s tm.id x h
+          · simpa
+
+theorem foldl_keeps (ro : Ro) (l : List TM) (s : Srv) (x : TRef) (h : s.slot x = .present) :
+    (l.foldl (fun acc tm =>
+        if acc.slot tm.id = .present then acc
+        else if makeTree tm ro then storeAndFlush acc tm.id else acc) s).slot x = .present := by
+  induction l generalizing s with
+  | nil => simpa
+  | cons tm l ih =>
+    simp only [List.foldl_cons]
+    apply ih
+    split
+    · exact h
+    · split
+      · exact storeAndFlush_keeps s tm.id x h
+      · exact h
+
+/-- **a known tree cannot be taken away or replaced** by any envelope -/
+theorem c07_present_stays (s : Srv) (e : Env) (x : TRef) (h : s.slot x = .present) :
+    (process s e).2.slot x = .present := by
+  cases e with
+  | proto to frm b =>
+    simp only [process]
+    split
+    · exact h
+    · split
+      · exact h
+      · split
+        · rw [deliver_slot]; exact h
+        · rename_i hnp
+          split
+          · simp only
+            apply upd_present h
+            right; intro e; subst e; exact hnp h
+          · exact h
+  | reqTree t v => simp only [process]; split <;> simpa using h
+  | respTree tm ro => exact sendTree_keeps s tm ro x h
+  | treeMarshal tm =>
+    simp only [process]
+    split
+    · exact h
+    · split
+      · exact h
+      · split
+        · exact sendTree_keeps _ _ _ x h
+        · simpa using h
+  | reqRoster r => simpa [process] using h
+  | sendRoster ro =>
+    simp only [process]
+    split
+    · exact h
+    · simp only
+      exact foldl_keeps ro _ s x h
+  | config w => simpa [process] using h
+
+theorem c07_present_stays_run (es : List Env) (s : Srv) (x : TRef) (h : s.slot x = .present) :
+    (runEnvs s es).slot x = .present := by
+  induction es generalizing s with
+  | nil => exact h
+  | cons e es ih => exact ih _ (c07_present_stays s e x h)
+
+/-- **still serves**: after *any finite sequence* of envelopes of any type with any field
+values, in any of the starting states, (1) a legitimate protocol message of a new run on the
+known tree is handed to its instance and reaches the handler, (2) a legitimate tree request is
+answered, (3) a roster request is answered, and nothing panics on the way. -/
+theorem c07_still_serves (es : List Env) (s0 : Srv) (hK : s0.slot .K = .present) :
+    let s := runEnvs s0 es
+    (process s (.proto (.fresh .K) .member true)).1 = .ok ∧
+    (process s (.proto (.fresh .K) .member true)).2.delivered = s.delivered + 1 ∧
+    (process s (.reqTree .K false)).2.replies = s.replies + 1 ∧
+    (process s (.reqRoster .roK)).2.replies = s.replies + 1 := by
+  have hp := c07_present_stays_run es s0 .K hK
+  simp only
+  generalize runEnvs s0 es = s at *
+  refine ⟨?_, ?_, ?_, ?_⟩
+  · simp [process, treeOf, hp, deliver]
+  · simp [process, treeOf, hp, deliver]
+  · simp [process, hp]
+  · simp [process]
+
+/-! ### the pinned code before the repairs: five negation witnesses (each replayed on the real code,
+`notes/probes/onet_overlay_c07_probe_test.go.txt`, and kept as corpus cases) -/
+theorem c07_old_nil_destination : (processOld {} (.proto .none .member true)).1 = .panic := by
+  simp [processOld]
+theorem c07_old_nil_sender : (processOld {} (.proto (.fresh .K) .none true)).1 = .panic := by
+  simp [processOld, treeOf, creates]
+theorem c07_old_empty_description :
+    (processOld {} (.respTree (some ⟨.R, .roR, .emptyChildren⟩) (some ⟨.roR, true⟩))).1 = .panic := by
+  simp [processOld]
+theorem c07_old_roster_request_over_empty_slot : (processOld {} (.reqRoster .roK)).1 = .panic := by
+  simp [processOld]
+theorem c07_old_lock_left_held : (processOld {} (.sendRoster ⟨.roR, true⟩)).2.treeLock = 1 := by
+  simp [processOld]
+
+/-! ### non-vacuity: the deprecated roster-then-tree path stores the requested tree -/
+example : (runEnvs {} [.treeMarshal ⟨.R, .roR, .good⟩, .sendRoster ⟨.roR, true⟩]).slot .R = .present ∧
+    (runEnvs {} [.treeMarshal ⟨.R, .roR, .good⟩, .sendRoster ⟨.roR, true⟩]).delivered = 1 := by
+  simp [runEnvs, process, instanceRoster, makeTree, storeAndFlush, upd]
 
 end C07
